@@ -133,7 +133,7 @@ def _job(inp):
     '''one real run; inp is the replayable input record'''
     ad  = _adapter(inp['cls'])
     lay = R.Layout(**inp['layout'])
-    kw  = dict(scattered=inp['scattered'], cancelable=inp['cancelable'])
+    kw  = dict(scattered=inp['scattered'], cancelable=inp['cancelable'], dead=inp.get('dead') or [])
     if inp['kind'] == 'random':
         kw.update(seed=inp['seed'], p_env=inp['p_env'])
     else:
@@ -155,6 +155,11 @@ def _inputs(chk, tier, rng):
     def add(name, **kw):
         kw.update(cls=name, aseed=rng.randrange(10 ** 9))
         inputs.append(kw)
+
+    def gaps(i):
+        # every third case runs on a pilot whose RM dropped unreachable nodes: node indexes
+        # with gaps ([0, 2, ..], [1, 2, ..], [1, 3, ..]), positions in the node list without
+        return [[1], [0], [0, 2]][(i // 3) % 3] if i % 3 == 1 else []
 
     def modes(ad, i):
         return [ad.scattered[i % len(ad.scattered)]] if quick else list(ad.scattered)
@@ -185,7 +190,7 @@ def _inputs(chk, tier, rng):
                     continue
                 for sc in modes(_adapter(cname), i):
                     add(cname, kind='tlc-behaviour', scenario=name, script=script,
-                        layout=lay.__dict__, shapes=shapes, cancelable=canc, scattered=sc)
+                        layout=lay.__dict__, shapes=shapes, cancelable=canc, scattered=sc, dead=gaps(i))
 
     # ---- directed schedules -----------------------------------------------------------
     for i, (sname, script) in enumerate(directed(quick)):
@@ -195,7 +200,7 @@ def _inputs(chk, tier, rng):
                 continue
             for sc in modes(_adapter(cname), i):
                 add(cname, kind='tlc-behaviour', scenario=sname, script=script,
-                    layout=lay.__dict__, shapes=shapes, cancelable=canc, scattered=sc)
+                    layout=lay.__dict__, shapes=shapes, cancelable=canc, scattered=sc, dead=gaps(i))
 
     # ---- seeded random environments over the catalogue of layouts / shapes -------------
     for i in range(24 if quick else 1000):
@@ -213,7 +218,7 @@ def _inputs(chk, tier, rng):
             ad = _adapter(cname)
             sc = ad.scattered[0] if (len(ad.scattered) == 1 or rng.random() < 0.65) else ad.scattered[1]
             add(cname, kind='random', seed=s, p_env=pe, layout=lay.__dict__, shapes=shapes,
-                cancelable=canc, scattered=sc)
+                cancelable=canc, scattered=sc, dead=gaps(i))
 
     # ---- GPU sets: the jsrun scheduler first of all, the others on a sample -------------
     def gs_classes(i):
@@ -225,14 +230,14 @@ def _inputs(chk, tier, rng):
         for cname in gs_classes(i):
             for sc in _adapter(cname).scattered:
                 add(cname, kind='tlc-behaviour', scenario='gpu-sets-%d' % i, script=script,
-                    layout=lay.__dict__, shapes=shapes, cancelable=[], scattered=sc)
+                    layout=lay.__dict__, shapes=shapes, cancelable=[], scattered=sc, dead=gaps(i))
     for i in range(16 if quick else 500):
         lay, shapes, canc = gs_case(rng)
         s, pe = rng.randrange(10 ** 9), rng.choice([0.1, 0.25, 0.4])
         for cname in gs_classes(i):
             for sc in modes(_adapter(cname), i):
                 add(cname, kind='random', seed=s, p_env=pe, layout=lay.__dict__, shapes=shapes,
-                    cancelable=canc, scattered=sc)
+                    cancelable=canc, scattered=sc, dead=gaps(i))
 
     # ---- exclusive colocate tags (Continuous' rule, copied by the jsrun scheduler) -------
     for i in range(12 if quick else 300):
@@ -243,7 +248,7 @@ def _inputs(chk, tier, rng):
             # mostly scattered: only there the monitor asks for 'alone starts' of a jsrun task
             sc = ad.scattered[0] if i % 4 else ad.scattered[-1]
             add(cname, kind='random', seed=s, p_env=pe, layout=lay.__dict__, shapes=shapes,
-                cancelable=canc, scattered=sc)
+                cancelable=canc, scattered=sc, dead=gaps(i))
     return inputs
 
 
